@@ -4,7 +4,9 @@
     Values are byte strings: the harness stores values of a type implementing
     types.SerializedStoredData (GetSerialized/SetSerialized = the byte string itself) and uses a
     storedDataFactory creating empty values of that type, so getBytes / getData never reach the
-    marshaller.  The persister is open (dbIsClosed = false) and never fails (memorydb). *)
+    marshaller.  The persister never fails (memorydb); memorydb.Close does nothing and returns nil, so
+    after adapter.Close the persister's content is still there - the adapter no longer consults it
+    ([dbIsClosed]). *)
 From Coq Require Import List ZArith NArith Bool.
 From Verif Require Import Base.BStr Lru.LruTypes Lru.CapacityLru.
 Import ListNotations.
@@ -24,12 +26,13 @@ Definition db_has (k : bytes) (d : pdb) : bool := match db_get k d with Some _ =
 Record adapter := mkAdapter {
   mem : clru;               (* cacher *)
   db  : pdb;                (* db *)
-  numValuesInStorage : Z    (* counted separately by the code *)
+  numValuesInStorage : Z;   (* counted separately by the code *)
+  dbIsClosed : bool         (* set by Close, never reset *)
 }.
 
 Definition newAdapter (size byteCapacity : Z) : option adapter :=
   match newCapacityLRU size byteCapacity with
-  | Some c => Some (mkAdapter c [] 0)
+  | Some c => Some (mkAdapter c [] 0 false)
   | None => None
   end.
 
@@ -42,20 +45,30 @@ Definition persist_one (st : pdb * Z) (kv : bytes * bytes) : pdb * Z :=
   | _ => (db_put ek ev d, n + 1)
   end.
 
+(** Put: AddSizedAndReturnEvicted; [if c.dbIsClosed { return len(evictedValues) != 0 }] - the victims
+    are NOT written; otherwise the loop, then the same flag *)
 Definition ad_Put (a : adapter) (k v : bytes) (sz : Z) : adapter * bool :=
   let '(m', evicted) := AddSizedAndReturnEvicted (mem a) k v sz in
-  let '(d', n') := fold_left persist_one evicted (db a, numValuesInStorage a) in
-  (mkAdapter m' d' n', negb (Nat.eqb (length evicted) 0)).
+  if dbIsClosed a then
+    (mkAdapter m' (db a) (numValuesInStorage a) true, negb (Nat.eqb (length evicted) 0))
+  else
+    let '(d', n') := fold_left persist_one evicted (db a, numValuesInStorage a) in
+    (mkAdapter m' d' n' false, negb (Nat.eqb (length evicted) 0)).
 
+(** Get: cacher.Get; on a miss [if c.dbIsClosed { return nil, false }], else db.Get *)
 Definition ad_Get (a : adapter) (k : bytes) : adapter * option bytes :=
   let '(m', r) := Get (mem a) k in
   match r with
-  | Some v => (mkAdapter m' (db a) (numValuesInStorage a), Some v)
-  | None => (mkAdapter m' (db a) (numValuesInStorage a), db_get k (db a))
+  | Some v => (mkAdapter m' (db a) (numValuesInStorage a) (dbIsClosed a), Some v)
+  | None => (mkAdapter m' (db a) (numValuesInStorage a) (dbIsClosed a),
+             if dbIsClosed a then None else db_get k (db a))
   end.
 
+(** Has: cacher.Contains; else [if c.dbIsClosed { return false }]; else db.Has *)
 Definition ad_Has (a : adapter) (k : bytes) : bool :=
-  if Contains (mem a) k then true else db_has k (db a).
+  if Contains (mem a) k then true
+  else if dbIsClosed a then false
+  else db_has k (db a).
 
 Definition ad_Peek (a : adapter) (k : bytes) : option bytes := Peek (mem a) k.
 
@@ -63,14 +76,30 @@ Definition ad_Peek (a : adapter) (k : bytes) : option bytes := Peek (mem a) k.
     so the counter is decremented whether or not the key was stored) *)
 Definition ad_Remove (a : adapter) (k : bytes) : adapter :=
   let '(m', removed) := Remove (mem a) k in
-  if removed then mkAdapter m' (db a) (numValuesInStorage a)
-  else mkAdapter m' (db_remove k (db a)) (numValuesInStorage a - 1).
+  if removed || dbIsClosed a then mkAdapter m' (db a) (numValuesInStorage a) (dbIsClosed a)
+  else mkAdapter m' (db_remove k (db a)) (numValuesInStorage a - 1) (dbIsClosed a).
 
 (** Clear purges the cacher only *)
-Definition ad_Clear (a : adapter) : adapter := mkAdapter (purge (mem a)) (db a) (numValuesInStorage a).
+Definition ad_Clear (a : adapter) : adapter :=
+  mkAdapter (purge (mem a)) (db a) (numValuesInStorage a) (dbIsClosed a).
 
 Definition ad_Len (a : adapter) : Z := Len (mem a) + numValuesInStorage a.
-Definition ad_Keys (a : adapter) : list bytes := Keys (mem a) ++ map fst (db a).
+(** Keys: the cacher's keys; [if c.dbIsClosed { return storedKeys }]; else + db.RangeKeys *)
+Definition ad_Keys (a : adapter) : list bytes :=
+  if dbIsClosed a then Keys (mem a) else Keys (mem a) ++ map fst (db a).
+
+(** HasOrAdd: [ok := c.Has(key); if ok { return true, false }; added := c.Put(...); return false, added]
+    - the second flag is Put's return value (whether something was evicted), whatever its name says *)
+Definition ad_HasOrAdd (a : adapter) (k v : bytes) (sz : Z) : adapter * (bool * bool) :=
+  if ad_Has a k then (a, (true, false))
+  else let '(a', added) := ad_Put a k v sz in (a', (false, added)).
+
+(** Close: dbIsClosed = true; numValuesInStorage = 0; return c.db.Close() (memorydb: nil, nothing done) *)
+Definition ad_Close (a : adapter) : adapter := mkAdapter (mem a) (db a) 0 true.
+
+Definition ad_SizeInBytesContained (a : adapter) : Z := SizeInBytesContained (mem a).
+(** MaxSize returns math.MaxInt64 *)
+Definition ad_MaxSize (a : adapter) : Z := 9223372036854775807.
 
 Inductive aop :=
 | APut (k v : bytes) (sz : Z)
@@ -78,9 +107,14 @@ Inductive aop :=
 | AHas (k : bytes)
 | APeek (k : bytes)
 | ARemove (k : bytes)
-| AClear.
+| AClear
+| AHasOrAdd (k v : bytes) (sz : Z)
+| AClose
+| ASizeInBytesContained
+| AMaxSize.
 
-Inductive aret := ARPut (spilled : bool) | ARGet (v : option bytes) | ARHas (b : bool) | ARPeek (v : option bytes) | ARNone.
+Inductive aret := ARPut (spilled : bool) | ARGet (v : option bytes) | ARHas (b : bool) | ARPeek (v : option bytes) | ARNone
+| ARHasOrAdd (has added : bool) | ARClose (* the error of db.Close(): always nil *) | ARSize (n : Z) | ARMaxSize (n : Z).
 
 Definition astep (a : adapter) (o : aop) : adapter * aret :=
   match o with
@@ -90,6 +124,10 @@ Definition astep (a : adapter) (o : aop) : adapter * aret :=
   | APeek k => (a, ARPeek (ad_Peek a k))
   | ARemove k => (ad_Remove a k, ARNone)
   | AClear => (ad_Clear a, ARNone)
+  | AHasOrAdd k v sz => let '(a', (h, ad)) := ad_HasOrAdd a k v sz in (a', ARHasOrAdd h ad)
+  | AClose => (ad_Close a, ARClose)
+  | ASizeInBytesContained => (a, ARSize (ad_SizeInBytesContained a))
+  | AMaxSize => (a, ARMaxSize (ad_MaxSize a))
   end.
 
 Definition arun (a : adapter) (ops : list aop) : adapter :=
